@@ -30,7 +30,17 @@ type C16Scn struct {
 	Ext        bool              `json:"ext,omitempty"`        // the judged schema has a (well-behaved, result-less) extension registered
 	ExtDetach  bool              `json:"ext_detach,omitempty"` // the extension hands back contexts that are detached from the request\'s cancellation
 	Sticky     int               `json:"stickiness"`
+	// Second: after the judged call returned, the same client executes the same
+	// prepared plan again with a context that is never cancelled (entries plan
+	// and cache); the abandoned execution of the first call may still be running
+	Second bool `json:"second,omitempty"`
 }
+
+// the second request's resolvers fail here and there, so that its response
+// carries errors of its own
+var c16SecondFaults = map[string]string{"R@x2": FErr, "R@a.name": FErr, "R@nodes.1.name": FErr, "R@b.nn.s": FErr, "R@m2": FErr, "R@x5": FPanicStr}
+
+const c16LazyPanicQuery = `{ node(as:"A") { id ... on A { aOnly(st:"PANIC") } } nodes(n:2, as:"B") { ... on B { u(as:"A") { ... on A { name } } } } x1 }`
 
 type c16 struct{}
 
@@ -53,6 +63,9 @@ var c16Queries = []string{
 	// nothing here has an explicit resolver: the default resolver reads the root
 	// value, whose properties are user functions that may block
 	`{ plainRoot { name n tag } }`,
+	// executed as an unvalidated prepared plan only: the literal makes user code
+	// (ParseLiteral) panic while an abstract alternative is planned lazily
+	c16LazyPanicQuery,
 	// an abstract type with a single possible type below a polymorphic field
 	`{ nodes(n:2) { id ... on A { solo { ... on B { id } } } ... on C { solo { ... on B { id } } } ... on B { u { ... on A { solo { ... on B { id } } } } } } }`,
 }
@@ -106,6 +119,9 @@ func (p c16) Gen(seed uint64, enum int, tier string) json.RawMessage {
 			}
 			s.Query = q
 			s.Entry = []string{"do", "plan"}[enum%2]
+			if q == c16LazyPanicQuery {
+				s.Entry = "plan"
+			}
 			enum /= 2
 			// every placement also with the caller held before its select, so that
 			// result and cancellation are both there when it looks (either branch
@@ -157,6 +173,20 @@ func (p c16) Gen(seed uint64, enum int, tier string) json.RawMessage {
 		s.Park = append(s.Park, "plan.caller.select")
 	}
 	s.Sticky = []int{0, 30, 60, 90}[r.Intn(4)]
+	if s.Query == c16LazyPanicQuery {
+		s.Entry = "plan"
+	}
+	if s.Entry != "do" && r.Chance(25) {
+		s.Second = true
+		if r.Chance(60) {
+			s.Faults = map[string]string{"R@*": FErr}
+		}
+	}
+	if r.Chance(6) {
+		// some resolver ends the executing goroutine: the call must still return
+		s.Faults = map[string]string{"R@*": FGoexit}
+		s.Second = false
+	}
 	s.Pre = r.Chance(30)
 	s.Ext = r.Chance(30)
 	s.ExtDetach = s.Ext && r.Chance(40)
@@ -227,7 +257,17 @@ func (c16) Run(t TestingT, scn json.RawMessage, tape *Tape) *Outcome {
 	soloW := NewWorld("A")
 	soloRC := &ReqCtx{Task: "solo", W: soloW, Faults: expandStar(faults), AllThunk: sc.AllThunk, RootTok: Tok{T: "Query"}}
 	vars := c16Vars[sc.Query]
-	solo := MarshalResult(graphql.Do(graphql.Params{Schema: soloW.Schema, RequestString: sc.Query, RootObject: c16RootObject(), VariableValues: vars, Context: WithReq(context.Background(), soloRC)}))
+	solo := ""
+	if faults["R@*"] != FGoexit {
+		// (with a resolver that ends its goroutine only the return of the call
+		// is judged, inside the simulator where a blocked call is detected)
+		solo = c16Solo(soloW, sc.Query, vars, soloRC)
+	}
+	solo2 := ""
+	if sc.Second {
+		w2 := NewWorld("A")
+		solo2 = c16Solo(w2, sc.Query, vars, &ReqCtx{Task: "solo", W: w2, Faults: c16SecondFaults, RootTok: Tok{T: "Query"}})
+	}
 
 	s := NewSim(tape)
 	s.Stickiness = sc.Sticky
@@ -338,6 +378,8 @@ func (c16) Run(t TestingT, scn json.RawMessage, tape *Tape) *Outcome {
 			}
 			s.Gate("c1", "client:call", "")
 			var res *graphql.Result
+			var thePlan *graphql.Plan
+			var planArgs map[string]interface{}
 			rootObj := c16RootObject()
 			if sc.Entry == "cache" {
 				cache := graphql.NewPlanCache(graphql.PlanCacheOptions{Normalize: true})
@@ -346,6 +388,7 @@ func (c16) Run(t TestingT, scn json.RawMessage, tape *Tape) *Outcome {
 					tc.Out["r"] = "cache error"
 					return
 				}
+				thePlan, planArgs = pr.Plan, mergeArgs(vars, pr.SynthArgs)
 				res = graphql.ExecutePlan(pr.Plan, graphql.ExecuteParams{Schema: w.Schema, Root: rootObj, Args: mergeArgs(vars, pr.SynthArgs), Context: rctx})
 			} else if sc.Entry == "plan" {
 				doc, err := parseDoc(sc.Query)
@@ -358,6 +401,10 @@ func (c16) Run(t TestingT, scn json.RawMessage, tape *Tape) *Outcome {
 					tc.Out["r"] = "plan error"
 					return
 				}
+				if sc.Query == c16LazyPanicQuery {
+					w.PanicLiteral = true
+				}
+				thePlan, planArgs = plan, vars
 				res = graphql.ExecutePlan(plan, graphql.ExecuteParams{Schema: w.Schema, Root: rootObj, Args: vars, Context: rctx})
 			} else {
 				res = graphql.Do(graphql.Params{Schema: w.Schema, RequestString: sc.Query, RootObject: rootObj, VariableValues: vars, Context: rctx})
@@ -378,6 +425,15 @@ func (c16) Run(t TestingT, scn json.RawMessage, tape *Tape) *Outcome {
 				kind = "data"
 			}
 			s.Note("c1", "client:returned", kind)
+			if sc.Second && thePlan != nil {
+				// the same plan again, never cancelled, while whatever the first
+				// call left behind is still running
+				s.Gate("c1", "client:call2", "")
+				rc2 := &ReqCtx{Task: "c1", W: w, Faults: c16SecondFaults, Gates: true, RootTok: Tok{T: "Query"}}
+				res2 := graphql.ExecutePlan(thePlan, graphql.ExecuteParams{Schema: w.Schema, Root: c16RootObject(), Args: planArgs, Context: WithReq(WithTask(context.Background(), "c1"), rc2)})
+				tc.Out["r2"] = MarshalResult(res2)
+				s.Note("c1", "client:returned2", "")
+			}
 		})
 		s.Run()
 		if err := ctx.Err(); err != nil {
@@ -406,13 +462,13 @@ func (c16) Run(t TestingT, scn json.RawMessage, tape *Tape) *Outcome {
 		switch {
 		case e.Kind == "act" && e.Site == "cancel":
 			idxCancel = i
-		case e.Site == "plan.exec.send" && (e.Kind == "note" || e.Kind == "run") && idxSend < 0:
+		case e.Site == "plan.exec.send" && (e.Kind == "note" || e.Kind == "run") && idxSend < 0 && (!sc.Second || strings.HasSuffix(e.Task, "/exec.0")):
 			idxSend = i
 		case e.Site == "client:returned":
 			idxReturned = i
-		case e.Site == "plan.caller.select" && e.Kind == "park":
+		case e.Site == "plan.caller.select" && e.Kind == "park" && idxReturned < 0:
 			idxSelectPark = i
-		case e.Site == "plan.caller.select" && e.Kind == "run":
+		case e.Site == "plan.caller.select" && e.Kind == "run" && idxReturned < 0:
 			idxSelectRun = i
 		}
 	}
@@ -448,12 +504,24 @@ func (c16) Run(t TestingT, scn json.RawMessage, tape *Tape) *Outcome {
 		if n > 0 {
 			w2 := NewWorld("A")
 			rc2 := &ReqCtx{Task: "solo", W: w2, Faults: f2, AllThunk: sc.AllThunk, RootTok: Tok{T: "Query"}}
-			solo = MarshalResult(graphql.Do(graphql.Params{Schema: w2.Schema, RequestString: sc.Query, RootObject: c16RootObject(), VariableValues: vars, Context: WithReq(context.Background(), rc2)}))
+			solo = c16Solo(w2, sc.Query, vars, rc2)
 		}
 	}
 	got, finished := outs["c1"]["r"], outs["c1"] != nil
 	if !finished || s.Stuck || s.CapHit {
 		o.Violate("C16/caller-blocked", "the call did not return: stuck=%v cap=%v unfinished=%v leaked=%v", s.Stuck, s.CapHit, s.StuckOn, s.Leaked)
+		return o
+	}
+	if sc.Second {
+		if got2 := outs["c1"]["r2"]; got2 != solo2 {
+			o.Violate("C16/second-request-differs", "a later, never cancelled request on the same plan differs from its solo response (the first call returned %s)\n got: %s\nsolo: %s", got, got2, solo2)
+		}
+	}
+	if faults["R@*"] == FGoexit {
+		// a resolver ended the executing goroutine: only the return of the call
+		// is judged (established above)
+		o.Probe("resolver-goexit")
+		o.Nontrivial = true
 		return o
 	}
 	isCtxErr := func(r string) bool { return ctxErrText != "" && isExactlyError(r, ctxErrText) }
@@ -589,6 +657,22 @@ func isExactlyError(result, msg string) bool {
 
 // c16RootObject is the root value of every C16 request: the default-resolved
 // field plainRoot reads it; its properties are user functions (scheduling points).
+// c16Solo is the reference: the request run alone, outside the simulator, on a
+// cold schema.
+func c16Solo(w *World, query string, vars map[string]interface{}, rc *ReqCtx) string {
+	ctx := WithReq(context.Background(), rc)
+	if query == c16LazyPanicQuery {
+		doc, _ := parseDoc(query)
+		pl, err := graphql.PlanQuery(&w.Schema, doc, "")
+		if err != nil {
+			return "plan error: " + err.Error()
+		}
+		w.PanicLiteral = true
+		return MarshalResult(graphql.ExecutePlan(pl, graphql.ExecuteParams{Schema: w.Schema, Root: c16RootObject(), Args: vars, Context: ctx}))
+	}
+	return MarshalResult(graphql.Do(graphql.Params{Schema: w.Schema, RequestString: query, RootObject: c16RootObject(), VariableValues: vars, Context: ctx}))
+}
+
 func c16RootObject() map[string]interface{} {
 	prop := func(v interface{}) func() interface{} {
 		return func() interface{} {
